@@ -363,14 +363,15 @@ def run_case(desc):
         must_silent = must_silent and kap <= 10
     if desc["special"] == "zeroB":
         must_silent = True
-    if desc["special"] == "tinyB":
-        must_silent = eff_method in ("exactsolve", "custom_exactsolve", "cg", "bicgstab")
+    if desc["special"] == "tinyB" and eff_method in ("cg", "bicgstab") and float(bn.max()) < atol:
+        must_silent = True      # |B| is below the absolute tolerance: the zero start already meets the stopping test
     if must_silent:
         obs.count("must_silent_cases")
         obs.check(not warned, "not_silent:%s:%s:%s%s" % (eff_method, emode, spectrum, ":normaleq" if normal_eq else ""),
                   "well-conditioned system (cond %.1f) but %s warned: %s" % (kap, eff_method, wl.convergence[:1]),
                   kind=kind, n=n, dtype=str(dt), e_complex=not e_real)
-    obs.note(warned=warned, max_resid=float(rn.max()), products=nprod)
+    obs.note(warned=warned, max_resid=float(rn.max()), products=nprod, resid_per_column=rn.reshape(-1, ncols)[:2], rhs_norm_per_column=bn.reshape(-1, ncols)[:2],
+             bound_per_column=(bound.reshape(-1, ncols)[:2] if bound is not None else None))
     bzero = bool((B == 0).all())
     obs.nontrivial = (not bzero) and (nprod >= 2 or (eff_method in ("exactsolve", "custom_exactsolve") and n >= 2))
     return obs.result()
